@@ -261,6 +261,7 @@ type rtRun struct {
 	clients                   []*rtClient
 	ctxs                      map[int]context.Context
 	cancels                   map[int]context.CancelFunc
+	failedCfgLeak             string // a library goroutine alive after Config returned an error (Config context not yet cancelled)
 	rootCancel                context.CancelFunc
 	trace                     []string // labels executed (model protocol)
 	log                       []string // free-form event log
